@@ -186,7 +186,7 @@ type zzC15IntSpec struct {
 
 func zzC15IntControl(dirch byte, mods, pm, extra int, lead []byte) zzC15IntSpec {
 	var s zzC15IntSpec
-	m0, m1, m2, m3 := pm%4, pm/4%3, pm/12%3, pm/36%3
+	m0, m1, m2, m3 := pm%4, pm/4%3, pm/12%3, pm/36%4
 	s.pad, s.comma, s.interval = ' ', ',', 3
 	s.ctrl = append(s.ctrl, lead...)
 	s.ctrl = append(s.ctrl, '~')
@@ -269,6 +269,11 @@ func zzC15IntControl(dirch byte, mods, pm, extra int, lead []byte) zzC15IntSpec 
 		s.interval = zzC15Small("commaint", 1, 12)
 		s.ctrl = append(s.ctrl, 'v')
 		s.pre = append(s.pre, slip.Fixnum(s.interval))
+	case 3:
+		// # after the v parameters: they have taken their arguments, the
+		// integer and the extra ones remain
+		s.ctrl = append(s.ctrl, '#')
+		s.interval = 1 + extra
 	}
 	switch mods {
 	case 1:
